@@ -361,6 +361,17 @@ func toDir(s *wire.Stat) *go9p.Dir {
 	d.Uidnum = s.Nuid
 	d.Gidnum = s.Ngid
 	d.Muidnum = s.Nmuid
+	// Dir.Size is an output of decoding, not an input of encoding: a Dir "with history" (decoded earlier, then edited,
+	// or decoded in the other dialect, or filled in by hand) carries a value that has nothing to do with the record
+	// about to be packed, and the packers must not care
+	switch (len(s.Name) + len(s.Uid) + int(s.Mode&0xff)) % 4 {
+	case 1:
+		d.Size = uint16(wire.StatLen(s, true) - 2)
+	case 2:
+		d.Size = uint16(wire.StatLen(s, false) - 2 + 7)
+	case 3:
+		d.Size = uint16(0xFFFF - len(s.Name))
+	}
 	return d
 }
 
